@@ -5,7 +5,10 @@
 //! of the case on it. Everything the API returns is logged (positions and coordinates, as
 //! integers + an exactness flag); nothing is judged here.
 use linfa::Float;
-use linfa_nn::{distance::*, BallTree, CommonNearestNeighbour, KdTree, LinearSearch, NearestNeighbour, NearestNeighbourIndex};
+use linfa_nn::{
+    distance::*, BallTree, BallTreeIndex, CommonNearestNeighbour, KdTree, KdTreeIndex, LinearSearch, LinearSearchIndex,
+    NearestNeighbour, NearestNeighbourIndex,
+};
 use ndarray::{s, Array1, Array2, ArrayView1, ArrayView2, ShapeBuilder};
 use vh::serde_json::{json, Value};
 use vh::*;
@@ -84,7 +87,107 @@ fn queries<F: Float>(ix: &dyn NearestNeighbourIndex<F>, inp: &Value, ev: &mut se
     ev.insert("bad".into(), Value::Array(bad));
 }
 
-fn session<F: Float, D: 'static + Distance<F>>(inp: &Value, se: &Value, dist: D) -> Value {
+// ------------------------------------------------------------------------------------------------
+// Structure of a built ball tree, read from the public `Debug` output of `BallTreeIndex`
+// (`BallTreeIndex { tree: Branch { center: [..], shape=.., radius: r, left: .., right: .. } | Leaf {
+// center: [..], .., radius: r, points: [([..], .., pos), ..] }, dist_fn: .., dim: d, len: n }`).
+// Logged per node (pre-order): leaf flag, finiteness, centre and radius in hundredths, positions,
+// child indices (1-based, 0 = none).
+
+struct Cur<'a> {
+    s: &'a str,
+    i: usize,
+}
+impl<'a> Cur<'a> {
+    fn eat(&mut self, t: &str) -> Option<()> {
+        if self.s[self.i..].starts_with(t) {
+            self.i += t.len();
+            Some(())
+        } else {
+            None
+        }
+    }
+    fn upto(&mut self, t: &str) -> Option<&'a str> {
+        let j = self.s[self.i..].find(t)?;
+        let r = &self.s[self.i..self.i + j];
+        self.i += j + t.len();
+        Some(r)
+    }
+    /// `[a, b, ..], shape=[..], strides=[..], layout=.., const ndim=1`
+    fn arr(&mut self) -> Option<Vec<f64>> {
+        self.eat("[")?;
+        let body = self.upto("]")?;
+        let v: Option<Vec<f64>> = if body.trim().is_empty() { Some(vec![]) } else { body.split(", ").map(|x| x.trim().parse::<f64>().ok()).collect() };
+        self.upto("const ndim=1")?;
+        v
+    }
+    fn node(&mut self, out: &mut Vec<Value>) -> Option<usize> {
+        let me = out.len();
+        out.push(Value::Null);
+        if self.eat("Leaf { center: ").is_some() {
+            let c = self.arr()?;
+            self.eat(", radius: ")?;
+            let r: f64 = self.upto(", points: [")?.parse().ok()?;
+            let mut pos = Vec::new();
+            loop {
+                if self.eat("]").is_some() {
+                    break;
+                }
+                self.eat(", ");
+                self.eat("(")?;
+                self.arr()?;
+                self.eat(", ")?;
+                pos.push(self.upto(")")?.parse::<i64>().ok()?);
+            }
+            self.eat(" }")?;
+            out[me] = json!({"lf": true, "fin": all_finite(c.iter()) && r.is_finite(), "c": fxv(c.iter(), 100.0), "r": fx(r, 100.0), "p": pos, "l": 0, "rt": 0});
+        } else {
+            self.eat("Branch { center: ")?;
+            let c = self.arr()?;
+            self.eat(", radius: ")?;
+            let r: f64 = self.upto(", left: ")?.parse().ok()?;
+            let l = self.node(out)?;
+            self.eat(", right: ")?;
+            let rt = self.node(out)?;
+            self.eat(" }")?;
+            out[me] = json!({"lf": false, "fin": all_finite(c.iter()) && r.is_finite(), "c": fxv(c.iter(), 100.0), "r": fx(r, 100.0), "p": [], "l": l + 1, "rt": rt + 1});
+        }
+        Some(me)
+    }
+}
+
+fn tree_nodes(dbg: &str) -> Option<Vec<Value>> {
+    let mut c = Cur { s: dbg, i: 0 };
+    c.eat("BallTreeIndex { tree: ")?;
+    let mut out = Vec::new();
+    c.node(&mut out)?;
+    c.eat(", dist_fn: ")?;
+    Some(out)
+}
+
+/// session kind "tree": build with `BallTreeIndex::new` and log the structure
+fn tree_session<F: Float, D: 'static + Distance<F> + std::fmt::Debug>(inp: &Value, se: &Value, dist: D) -> Value {
+    let n = geti(inp, "n") as usize;
+    let dim = geti(inp, "dim") as usize;
+    let pts = imat(&inp["pts"]);
+    let leaf = geti(se, "leaf");
+    let batch: Array2<F> = Array2::from_shape_fn((n, dim), |(r, c)| to_f::<F>(pts[r][c]));
+    let built = guarded(|| BallTreeIndex::new(&batch, leaf as usize, dist.clone()).map(|t| format!("{:?}", t)).map_err(|e| e.to_string()));
+    let (build, parsed, nodes) = match built {
+        Err(_) => ("panic", false, vec![]),
+        Ok(Err(_)) => ("err", false, vec![]),
+        Ok(Ok(d)) => match tree_nodes(&d) {
+            Some(v) => ("ok", true, v),
+            None => ("ok", false, vec![]),
+        },
+    };
+    json!({"ev": "tree", "ix": "tree", "ft": se["ft"], "leaf": leaf, "lay": se["lay"], "build": build, "parsed": parsed, "nodes": nodes})
+}
+
+fn session<F: Float, D: 'static + Distance<F> + std::fmt::Debug>(inp: &Value, se: &Value, dist: D) -> Value {
+    if gets(se, "ix") == "tree" {
+        return tree_session::<F, D>(inp, se, dist);
+    }
     let n = geti(inp, "n") as usize;
     let dim = geti(inp, "dim") as usize;
     let pts = imat(&inp["pts"]);
@@ -134,6 +237,10 @@ fn session<F: Float, D: 'static + Distance<F>>(inp: &Value, se: &Value, dist: D)
             ("lin_d", l) => LinearSearch::new().from_batch_with_leaf_size(&view, l as usize, dist.clone()),
             ("kd_d", l) => KdTree::new().from_batch_with_leaf_size(&view, l as usize, dist.clone()),
             ("ball_d", l) => BallTree::new().from_batch_with_leaf_size(&view, l as usize, dist.clone()),
+            // "*_n": the index types' own constructors
+            ("lin_n", _) => LinearSearchIndex::new(&view, dist.clone()).map(|v| Box::new(v) as Box<dyn NearestNeighbourIndex<F> + Send + Sync>),
+            ("kd_n", l) => KdTreeIndex::new(&view, l as usize, dist.clone()).map(|v| Box::new(v) as Box<dyn NearestNeighbourIndex<F> + Send + Sync>),
+            ("ball_n", l) => BallTreeIndex::new(&view, l as usize, dist.clone()).map(|v| Box::new(v) as Box<dyn NearestNeighbourIndex<F> + Send + Sync>),
             _ => panic!("unknown index kind {}", ixk),
         };
         r.map(|b| b as Box<dyn NearestNeighbourIndex<F>>).map_err(|e| e.to_string())
